@@ -484,29 +484,44 @@ class Interp:
         # filter-copy loop:  for k, e in X.items(): [if <filters>:] D[k] = f(e)
         if (isinstance(it, ast.Call) and isinstance(it.func, ast.Attribute) and it.func.attr == "items"
                 and isinstance(st.target, ast.Tuple) and len(st.target.elts) == 2
-                and all(isinstance(x, ast.Name) for x in st.target.elts) and len(st.body) == 1 and not st.orelse):
-            inner = st.body[0]
-            conds: List[ast.AST] = []
-            while isinstance(inner, ast.If) and not inner.orelse and len(inner.body) == 1:
-                conds.append(inner.test)
-                inner = inner.body[0]
-            if (isinstance(inner, ast.Assign) and len(inner.targets) == 1 and isinstance(inner.targets[0], ast.Subscript)
-                    and isinstance(inner.targets[0].value, ast.Name) and isinstance(inner.targets[0].slice, ast.Name)):
+                and all(isinstance(x, ast.Name) for x in st.target.elts) and st.body and not st.orelse):
+            # each body statement is `[if <filters>:] D[k] = f(e)` into its own fresh dict: independent comprehensions
+            plans = []
+            for inner in st.body:
+                conds: List[ast.AST] = []
+                while isinstance(inner, ast.If) and not inner.orelse and len(inner.body) == 1:
+                    conds.append(inner.test)
+                    inner = inner.body[0]
+                if not (isinstance(inner, ast.Assign) and len(inner.targets) == 1 and isinstance(inner.targets[0], ast.Subscript)
+                        and isinstance(inner.targets[0].value, ast.Name) and isinstance(inner.targets[0].slice, ast.Name)):
+                    plans = []
+                    break
                 dname = inner.targets[0].value.id
                 cur = env.get(dname)
                 fresh = (isinstance(cur, GroupV) and cur.vec and not cur.mono and "empty" in cur.flags) or \
                         (isinstance(cur, DictV) and not cur.g.mono)
-                if fresh:
+                if not fresh or any(p_[0] == dname for p_ in plans):
+                    plans = []
+                    break
+                plans.append((dname, inner, conds))
+            if plans:
+                results = []
+                for dname, inner, conds in plans:
                     comp = ast.DictComp(
                         key=inner.targets[0].slice, value=inner.value,
                         generators=[ast.comprehension(target=st.target, iter=it, ifs=conds, is_async=0)])
                     ast.copy_location(comp, st)
                     ast.fix_missing_locations(comp)
                     res = self.dictcomp(fi, comp, env)
-                    if isinstance(res, GroupV):
+                    if not isinstance(res, GroupV):
+                        results = []
+                        break
+                    results.append((dname, res))
+                if results:
+                    for dname, res in results:
                         res.flags.discard("empty")
                         env[dname] = res
-                        return
+                    return
         if (isinstance(it, ast.Call) and isinstance(it.func, ast.Attribute) and it.func.attr == "items"
                 and isinstance(st.target, ast.Tuple) and len(st.target.elts) == 2
                 and all(isinstance(x, ast.Name) for x in st.target.elts) and len(st.body) == 1):
@@ -518,6 +533,8 @@ class Interp:
                     and b.target.slice.id == kvar):
                 tgt = env.get(b.target.value.id)
                 if isinstance(tgt, DictV):
+                    if not tgt.g.mono and tgt.g.kind != src.kind:
+                        tgt.g = GroupV(src.kind, (), set(tgt.g.flags), True)   # an empty accumulator takes the kind of what is merged in
                     kind, coefs = self.elementwise(fi, b.value, [evar], env)
                     if kind != "lin":
                         raise Unsupported(f"merge loop with a non-linear update at {fi.where(st)}")
@@ -1162,6 +1179,8 @@ class Interp:
                 v = self.eval(fi, e.args[1], env)
                 if isinstance(v, GroupV):
                     return DictV(GroupV(v.kind, v.mono, set(), True))
+            if f.id == "defaultdict" and len(e.args) == 1 and ast.unparse(e.args[0]) in ("int", "lambda: 0"):
+                return DictV(GroupV("F", (), set(), True))   # an empty exponent accumulator
             if f.id == "any":
                 return BoolV(None)
             if f.id == "Decimal" and len(e.args) == 1:
